@@ -146,6 +146,29 @@ pub fn dosc_history(out: &mut crate::Out, tag: &str, seed: u64, net: NetID, thor
             }
             d.apply(&round_mints, 0, json!({"why": "two mints in one batch (main line)", "agreeKey": key}));
         }
+        // a fast mint: a coin created in the previous block, TIP-910 difficulty 14 -> speed 1638400 > 10^6 raises the recorded DOSC speed;
+        // a payment follows in the same block (the raised speed must survive later batches of the block), and later rounds
+        // mint older coins against the raised speed of the previous block
+        if round == 1 || (thorough && round == 3) {
+            let h = d.view().height.0;
+            let young = d.spendable().into_iter().find(|(_, x)| x.coin_data.denom == Denom::Mel && x.coin_data.value.0 > 10_000_000 && x.height.0 + 1 == h);
+            if let (Some(coin), Some(seed_header)) = (young.clone(), young.and_then(|c| header_at(&d, c.1.height.0))) {
+                let puzzle = tmelcrypt::hash_keyed(seed_header.hash(), &stdcode::serialize(&coin.0).unwrap());
+                let difficulty = 14usize;
+                let proof = gen_proof(&puzzle, difficulty, true);
+                let b = bound(&d, coin.1.height.0, difficulty as u32, true);
+                let good = stdcode::serialize(&(difficulty as u32, proof)).unwrap();
+                if let Some(t) = mint_tx(&mut d, &coin, good.clone(), b + 1) {
+                    d.w.batch(d.cur, &[t], 0, json!({"why": "fast mint, ERG = bound + 1"}));
+                }
+                if let Some(t) = mint_tx(&mut d, &coin, good, b) {
+                    d.apply(&[t], 0, json!({"why": format!("fast mint (speed above the recorded one), ERG = bound ({})", b)}));
+                }
+                if let Some(p) = d.random_pay() {
+                    d.apply(&[p], 0, json!({"why": "payment after the fast mint in the same block"}));
+                }
+            }
+        }
         // a coin created in this very block cannot seed a puzzle
         if round == 0 {
             let sp = d.spendable();
@@ -154,6 +177,13 @@ pub fn dosc_history(out: &mut crate::Out, tag: &str, seed: u64, net: NetID, thor
                 if let Some(t) = mint_tx(&mut d, &c, stdcode::serialize(&(8u32, gen_proof(&p, 8, false))).unwrap(), 0) {
                     d.w.batch(d.cur, &[t], 0, json!({"why": "coin created in this block"}));
                 }
+            }
+        }
+        // a fresh coin for the next round's fast mint
+        if let Some(src) = d.spendable().into_iter().find(|(_, x)| x.coin_data.denom == Denom::Mel && x.coin_data.value.0 > 200_000_000) {
+            let a = d.wal.address(CovKind::New(0));
+            if let Some(t) = d.build(TxKind::Normal, &[src], vec![mk_coin(a, 60_000_000, Denom::Mel, &[])], 1, vec![], 0) {
+                d.apply(&[t], 0, json!({"why": "fresh coin"}));
             }
         }
         d.seal_next(if round % 2 == 0 { Some(true) } else { None });
